@@ -16,6 +16,6 @@ CONSTANTS
   Timeouts = {TRUE}
   QueueBound = 0
 VIEW View
-INVARIANTS InvRefinesOrKnown InvSound IndexInCache CacheComplete
+INVARIANTS InvRefinesOrKnown InvSound IndexInCache CacheComplete InvNameBlind
 PROPERTIES MuteVerdictExactOrKnown
 CHECK_DEADLOCK FALSE
